@@ -315,8 +315,15 @@ def mask_consistency(repo, res):
         first_pm = min(p_.lineno for p_ in pm)
         kills = [k_ for k_ in ast.walk(fn) if isinstance(k_, ast.AugAssign) and isinstance(k_.op, ast.Mult) and isinstance(k_.value, ast.Constant)
                  and k_.value.value == 0 and isinstance(k_.target, ast.Subscript) and ast.unparse(k_.target.value) == "BHJM" and k_.lineno > first_pm]
+
+        def _zeroing(v):
+            return (isinstance(v, ast.Constant) and v.value in (0, 0.0) and not isinstance(v.value, bool)) or (
+                isinstance(v, ast.BinOp) and isinstance(v.op, ast.Mult) and any(isinstance(o, ast.Constant) and o.value == 0 for o in (v.left, v.right)))
+        # the same forcing to zero written out: `BHJM[m] = BHJM[m] * 0`, `BHJM[m] = 0`
+        kills += [k_ for k_ in ast.walk(fn) if isinstance(k_, ast.Assign) and len(k_.targets) == 1 and isinstance(k_.targets[0], ast.Subscript)
+                  and ast.unparse(k_.targets[0].value) == "BHJM" and _zeroing(k_.value) and k_.lineno > first_pm and not any(k_ is z_ for z_ in zero)]
         for k_ in kills:
-            for nm in base_masks(k_.target.slice):
+            for nm in base_masks((k_.target if isinstance(k_, ast.AugAssign) else k_.targets[0]).slice):
                 for f in at_all.get(k_.lineno, ()):
                     if f[0] == nm:
                         ep |= leaves(f)
@@ -443,7 +450,7 @@ def run(repo, res, tier):
     # R9: per-axis code of the numerical layer (inside masks, bounding boxes, component formulas) is one template per axis
     import rules_axis
     n9 = rules_axis.run(repo, res, "R9", lambda mn: mn.startswith("magpylib._src.fields"))
-    res.require(n9 >= 20, f"R9: only {n9} per-axis groups found in the numerical layer")
+    res.require(n9 >= 8, f"R9: only {n9} per-axis groups found in the numerical layer")
     # R10: a correction term (the inner hull of a hollow body, -J inside) written through an array-indexed copy never reaches the result
     import rules_lostwrite
     rules_lostwrite.run(repo, res, "R10", lambda mn: mn.startswith("magpylib._src.fields"))
